@@ -215,3 +215,79 @@ pub fn mode_part<'a>(sys: &'a LockStep, tier: Tier) -> Part<'a, LockStep> {
         nontrivial: Some("lockstep_transitions"),
     }
 }
+
+/// EVERY private mode number 0..=65535, set and reset, from a state in which the pen,
+/// the saved context, the margins and the cursor are away from their defaults: an
+/// unimplemented number changes nothing, an implemented one does what the model says.
+/// A divergence is reported by the check that owns the component (pen: C08, saved
+/// context: C17, showing screen: C16, margins / origin: C05, auto-wrap: C04).
+pub fn mode_number_sweep(ctx: &Ctx, rep: &mut Report, sys: &LockStep) {
+    use crate::lockstep::{lock_apply, LSt, Outcome};
+    use crate::refterm::RefTerm;
+    use rayon::prelude::*;
+    let cfg = Cfg::new(5, 4, None);
+    // two seeds: the cursor away from the saved position, and on it (so that an unrequested
+    // restore shows in the pen alone - the first difference found decides who reports)
+    let seed_a: Vec<Cmd> = vec![
+        Decstbm(Some(2), Some(3)),
+        Sgr(vec![vec![Some(1)], vec![Some(4)], vec![Some(33)]]),
+        Cup(Some(2), Some(2)),
+        Decsc,
+        Sgr(vec![vec![Some(0)], vec![Some(7)]]),
+        Cup(Some(3), Some(1)),
+        Text("x".into()),
+    ];
+    let seed_b: Vec<Cmd> = vec![
+        Text("x".into()),
+        Sgr(vec![vec![Some(1)], vec![Some(4)], vec![Some(33)]]),
+        Cup(Some(2), Some(2)),
+        Decsc,
+        Sgr(vec![vec![Some(0)], vec![Some(7)]]),
+    ];
+    let nums: Vec<u32> = (0..=65535u32).collect();
+    let bad: Vec<(u32, bool, String)> = nums
+        .par_iter()
+        .filter_map(|&n| {
+            for (set, seed) in [(true, &seed_a), (false, &seed_a), (true, &seed_b), (false, &seed_b)] {
+                let r = crate::engine::guarded(|| {
+                    let mut st = LSt { vt: cfg.build(), model: RefTerm::new(cfg.cols, cfg.rows), dead: false };
+                    for cmd in seed.iter() {
+                        if !matches!(lock_apply(&mut st, &Op::new(cmd.clone())), Outcome::Ok) {
+                            return None; // the seed itself diverges: the BFS parts report that
+                        }
+                    }
+                    let cmd = if set { DecSet(vec![n]) } else { DecRst(vec![n]) };
+                    match lock_apply(&mut st, &Op::new(cmd)) {
+                        Outcome::Mismatch(c2, w) if sys.blame(&c2, &w) => Some(format!("after {:?}: {}", c2, w)),
+                        _ => None,
+                    }
+                });
+                match r {
+                    Ok(None) => {}
+                    Ok(Some(d)) => return Some((n, set, d)),
+                    Err(p) => return Some((n, set, format!("panic: {}", p))),
+                }
+            }
+            None
+        })
+        .collect();
+    let runs = nums.len() as u64 * 4;
+    rep.evaluations += runs;
+    rep.transitions += runs;
+    rep.traces_validated += runs;
+    rep.parts.push(serde_json::json!({"part":"every-mode-number","numbers":nums.len(),"runs":runs,"violating":bad.len()}));
+    println!("part every-mode-number: {} numbers x set/reset, {} violating", nums.len(), bad.len());
+    for (n, set, d) in bad.iter().take(3) {
+        emit_violation(ctx, rep, sys.property, serde_json::json!({"part":"every-mode-number","mode":n,"set":set,"oracle":"reference-terminal","observed":d}));
+    }
+    if bad.len() > 3 {
+        rep.violations += bad.len() as u64 - 3;
+    }
+}
+
+/// replay helper: re-run the sweep, true if it still finds a violation
+pub fn mode_number_replay(ctx: &Ctx, sys: &LockStep) -> bool {
+    let mut rep = Report::new();
+    mode_number_sweep(ctx, &mut rep, sys);
+    rep.violations > 0
+}
